@@ -69,7 +69,8 @@ res['existing_tests_pass'] = tests_ok
 # checks
 os.makedirs('/tmp/mut-verif', exist_ok=True)
 for f in ('properties.jsonl', 'known_findings.json'): shutil.copy('/verif/' + f, '/tmp/mut-verif/' + f)
-props = [prop] + [p for p in meta.get('also_check', [])]
+implemented = subprocess.check_output(['/verif/bin/vcheck', '-list'], text=True).split()
+props = [p for p in [prop] + [p for p in meta.get('also_check', [])] if p in implemented]
 if '--all' in sys.argv:
     props = subprocess.check_output(['/verif/bin/vcheck', '-list'], text=True).split()
 caught = {}
